@@ -15,6 +15,7 @@ Proof.
   - eapply stepS_main_events; eauto 6.
   - eapply stepS_main_events; eauto 7.
   - eapply stepS_main_events; eauto 7.
+  - eapply stepS_main_events; eauto 8.
   - eapply stepS_complete; eauto.
   - eapply stepS_done; eauto.
   - (* EExtDrop: only the registry cell changes *)
